@@ -337,6 +337,9 @@ class CreditLedger(Monitor):
             self.lim[s] = {
                 "max_data": o.get("max_data_" + peer, 1048576),
                 "stream_default": o.get("max_stream_data_" + peer, 1048576),
+                "sd_bidi_local": o.get("msd_bidi_local_" + peer),
+                "sd_bidi_remote": o.get("msd_bidi_remote_" + peer),
+                "sd_uni": o.get("msd_uni_" + peer),
                 "stream": {},
                 "bidi": o.get("max_streams_bidi_" + peer, 128),
                 "uni": o.get("max_streams_uni_" + peer, 128),
@@ -353,6 +356,9 @@ class CreditLedger(Monitor):
             self.lim["client"] = {
                 "max_data": po.get("max_data_server", 1048576),
                 "stream_default": po.get("max_stream_data_server", 1048576),
+                "sd_bidi_local": po.get("msd_bidi_local_server"),
+                "sd_bidi_remote": po.get("msd_bidi_remote_server"),
+                "sd_uni": po.get("msd_uni_server"),
                 "stream": {},
                 "bidi": po.get("max_streams_bidi_server", 128),
                 "uni": po.get("max_streams_uni_server", 128),
@@ -363,11 +369,23 @@ class CreditLedger(Monitor):
         new, old = self.fresh_client_limits, self.lim["client"]
         for k in ("max_data", "stream_default", "bidi", "uni"):
             old[k] = max(old[k], new[k])
+        for k in ("sd_bidi_local", "sd_bidi_remote", "sd_uni"):
+            a = old[k] if old.get(k) is not None else old["stream_default"]
+            b = new[k] if new.get(k) is not None else new["stream_default"]
+            old[k] = max(a, b)
         self.remembered_until = t
 
     def stream_limit(self, s, sid):
+        """limit in force for sender s on stream sid: the peer's transport parameter for that kind of stream
+        (RFC 9000 18.2: bidi_local = streams the *advertiser* opened, bidi_remote = streams opened towards it,
+        uni = unidirectional streams towards it), raised by delivered MAX_STREAM_DATA frames"""
         L = self.lim[s]
-        return max(L["stream"].get(sid, 0), L["stream_default"]) if sid not in L["stream"] else max(L["stream"][sid], L["stream_default"])
+        s_initiated = (sid % 2 == 0) == (s == "client")
+        kind = "uni" if sid & 2 else ("bidi_remote" if s_initiated else "bidi_local")
+        base = L.get("sd_" + kind)
+        if base is None:
+            base = L["stream_default"]
+        return max(L["stream"].get(sid, 0), base)
 
     def on_deliver(self, ep, rec, from_addr, t, altered=False):
         L = self.lim[ep.name]
